@@ -2,7 +2,8 @@
 //vp:pkg ./tsdb
 //vp:roots ./model/labels ./model/exemplar ./storage
 //vp:bounds CircularExemplarStorage.AddExemplar (validateExemplar, findInsertionIndex, removeExemplar, removeIndex): capacity 1..3, a history of 4 adds (thorough 5) to 2 series with symbolic timestamps |t|<=2^60 and arbitrary float64 values, out-of-order window symbolic in [0,2^60]; exemplar label sets empty (so the label-hash tie-break is constant); compared after every add with a reference model written from the property and the code's documentation
-//vp:assume exemplar labels are empty; Resize is not exercised; values are compared as floats exactly as the documentation states
+//vp:bounds Resize (grow / shrink / copyExemplarRanges): after 3 adds, a resize to capacity 1..4, then one more add; compared with the reference (keep the most recently accepted that fit) after each step
+//vp:assume exemplar labels are empty; values are compared as floats exactly as the documentation states
 package tsdb
 
 import (
@@ -93,6 +94,42 @@ func (m *vpXExModel) add(s int, ts int64, v float64) int {
 	return 0
 }
 
+// vpXCheckEx compares the store's per-series lists with the reference model; false means the walk had to stop.
+func vpXCheckEx(ce *CircularExemplarStorage, m *vpXExModel, series []labels.Labels) bool {
+	// retained exemplars, per series in list order
+	for si := range series {
+		var buf [128]byte
+		idx := ce.index[string(series[si].Bytes(buf[:]))]
+		l := m.lists[si]
+		if len(l) == 0 {
+			vpAssert(idx == nil, "a series without retained exemplars has no index entry")
+			continue
+		}
+		vpAssert(idx != nil, "a series with retained exemplars is indexed")
+		if idx == nil {
+			return false
+		}
+		cur := idx.oldest
+		for i := range l {
+			vpAssert(cur != noExemplar, "list has every retained exemplar")
+			if cur == noExemplar {
+				return false
+			}
+			e := ce.exemplars[cur]
+			vpObserve("ts", e.exemplar.Ts)
+			vpAssert(e.exemplar.Ts == l[i].ts && math.Float64bits(e.exemplar.Value) == math.Float64bits(l[i].v), "retained exemplars are the newest accepted ones, in per-series time order")
+			if i > 0 {
+				vpAssert(l[i-1].ts <= l[i].ts, "non-decreasing timestamps")
+			}
+			if i == len(l)-1 {
+				vpAssert(cur == idx.newest && e.next == noExemplar, "list ends at the newest exemplar")
+			}
+			cur = e.next
+		}
+	}
+	return true
+}
+
 func vpH_C21_exemplar_history() {
 	capN := vpShape("cap", 1, 3)
 	steps := 4
@@ -121,37 +158,56 @@ func vpH_C21_exemplar_history() {
 		}
 		vpObserve("rejected", got)
 		vpAssert(got == want, "accepted or rejected as out of order exactly as the rules say")
-		// retained exemplars, per series in list order
-		for si := range series {
-			var buf [128]byte
-			idx := ce.index[string(series[si].Bytes(buf[:]))]
-			l := m.lists[si]
-			if len(l) == 0 {
-				vpAssert(idx == nil, "a series without retained exemplars has no index entry")
-				continue
-			}
-			vpAssert(idx != nil, "a series with retained exemplars is indexed")
-			if idx == nil {
-				return
-			}
-			cur := idx.oldest
-			for i := range l {
-				vpAssert(cur != noExemplar, "list has every retained exemplar")
-				if cur == noExemplar {
-					return
-				}
-				e := ce.exemplars[cur]
-				vpObserve("ts", e.exemplar.Ts)
-				vpAssert(e.exemplar.Ts == l[i].ts && math.Float64bits(e.exemplar.Value) == math.Float64bits(l[i].v), "retained exemplars are the newest accepted ones, in per-series time order")
-				if i > 0 {
-					vpAssert(l[i-1].ts <= l[i].ts, "non-decreasing timestamps")
-				}
-				if i == len(l)-1 {
-					vpAssert(cur == idx.newest && e.next == noExemplar, "list ends at the newest exemplar")
-				}
-				cur = e.next
-			}
+		if !vpXCheckEx(ce, m, series) {
+			return
 		}
+	}
+	vpReach("end")
+}
+
+// Resizing keeps the most recently accepted exemplars that fit, and the store keeps working afterwards.
+func vpH_C21_exemplar_resize() {
+	capN := vpShape("cap", 1, 3)
+	window := vpInt64()
+	vpAssume(vpAnd(window >= 0, window <= 1<<60))
+	es, err := NewCircularExemplarStorage(int64(capN), NewExemplarMetrics(nil), window)
+	if err != nil {
+		panic(err)
+	}
+	ce := es.(*CircularExemplarStorage)
+	series := []labels.Labels{labels.FromStrings("a", "1"), labels.FromStrings("a", "2")}
+	m := &vpXExModel{cap: capN, lists: make([][]vpXEx, 2), window: window}
+	add := func() bool {
+		s := vpShape("series", 0, 1)
+		ts, v := vpInt64(), vpFloat64()
+		vpAssume(vpAnd(ts >= -(1<<60), ts <= 1<<60))
+		vpAssume(!math.IsNaN(v))
+		err := ce.AddExemplar(series[s], exemplar.Exemplar{Ts: ts, Value: v, HasTs: true})
+		want := m.add(s, ts, v)
+		got := 0
+		if err != nil {
+			got = 1
+		}
+		vpAssert(got == want, "accepted or rejected as out of order exactly as the rules say")
+		return vpXCheckEx(ce, m, series)
+	}
+	for step := 0; step < 3; step++ {
+		if !add() {
+			return
+		}
+	}
+	newCap := vpShape("newcap", 1, 4)
+	ce.Resize(int64(newCap))
+	m.cap = newCap
+	for len(m.acc) > newCap {
+		m.evictOldest()
+	}
+	vpObserve("retained", len(m.acc))
+	if !vpXCheckEx(ce, m, series) {
+		return
+	}
+	if !add() {
+		return
 	}
 	vpReach("end")
 }
